@@ -278,9 +278,16 @@ func vCopyN(dst io.Writer, src io.Reader, n int64) (int64, error) {
 
 // vCopy: a snapshot's payload is abstract (only its size is tracked): sending it puts no bytes on the wire, and the
 // receiver's io.CopyN (vCopyN) takes none off, so the stream stays framed.
+// vCopySendFailBudget > 0: that many sends fail half way (the network write runs into its deadline).
+var vCopySendFailBudget int
+
 func vCopy(dst io.Writer, src io.Reader) (int64, error) {
 	if f, ok := src.(*os.File); ok {
 		if g := vOSFiles[f]; g != nil {
+			if vCopySendFailBudget > 0 {
+				vCopySendFailBudget--
+				return g.size / 2, vIOError{"write: i/o timeout"}
+			}
 			return g.size, nil
 		}
 	}
